@@ -132,6 +132,8 @@ def resolve_path(spec, sb, default=None):
             with open(os.path.join(d, "keep"), "w"):
                 pass
         return d
+    if kind in ("eacces-r", "eacces-w", "enospc"):
+        return os.path.join(sb, "fault_" + kind.replace("-", "_"))
     if kind == "literal":
         v = spec[1]
         if isinstance(v, str) and v and not os.path.isabs(v):
